@@ -85,6 +85,12 @@ type C16Spec struct {
 	// Tall: the first Tall goroutines also own one table of c16TallRows rows
 	// (renderers may treat big tables differently), rendered as texttable only
 	Tall int `json:"tall_tables,omitempty"`
+	// Storm: right after the prologue every goroutine goes Storm times round a
+	// palette of c16Palette() distinct style spellings (starting at its own
+	// offset) through auto.Wrap / auto.Render on tiny tables of its own; per
+	// spelling, what came back (wrapper type; rendered text on every 8th turn)
+	// is compared with what that exact spelling gives alone
+	Storm int `json:"style_storm,omitempty"`
 }
 
 // what the worker process reads on stdin
@@ -497,9 +503,70 @@ func c16WantsDecorations(spec C16Spec) bool {
 	return false
 }
 
+// c16Palette: many distinct spellings of the styles auto accepts - the five
+// formats in several capitalisations and with ignored trailing sections, the
+// built-in decorations bare and as texttable.<name>, and two that name nothing.
+func c16Palette(names []string) []string {
+	p := []string{"csv", "CSV", "Csv", "csv.x", "json", "JSON", "Json", "JSON.x", "html", "HTML", "Html", "html.y",
+		"markdown", "Markdown", "MARKDOWN", "Markdown.y", "texttable", "TextTable", "TEXTTABLE", "Utf8-Light", "texttable.no-such"}
+	for i, n := range names {
+		p = append(p, n, "texttable."+n)
+		if i%2 == 0 {
+			p = append(p, "TextTable."+n)
+		}
+	}
+	return p
+}
+
+// c16Storm: one record per spelling - the distinct things it produced over all
+// turns, with counts.  Alone every spelling produces one thing every time.
+func c16Storm(spec C16Spec, g int, names []string) (out, labels []string) {
+	pal := c16Palette(names)
+	seen := make([]map[string]int, len(pal))
+	for i := range seen {
+		seen[i] = map[string]int{}
+	}
+	for turn := 0; turn < spec.Storm; turn++ {
+		for j := range pal {
+			i := (j + g*7 + turn) % len(pal)
+			o := capture(func() (string, error) {
+				t := tabular.New()
+				if (turn+j)%8 != 0 {
+					return fmt.Sprintf("%T", auto.Wrap(t, pal[i])), nil
+				}
+				t.AddHeaders("h")
+				t.AddRowItems("v")
+				w := auto.Wrap(t, pal[i])
+				s, err := w.Render()
+				return fmt.Sprintf("%T\x00%s", w, s), err
+			})
+			seen[i][o.Kind+"\x00"+string(o.Out)]++
+		}
+	}
+	for i, st := range pal {
+		var keys []string
+		for k := range seen[i] {
+			keys = append(keys, k)
+		}
+		sort.Strings(keys)
+		var sb strings.Builder
+		sb.WriteString("storm")
+		for _, k := range keys {
+			fmt.Fprintf(&sb, "\x00%dx %s", seen[i][k], k)
+		}
+		out = append(out, sb.String())
+		labels = append(labels, "style storm, format auto:"+st)
+	}
+	return out, labels
+}
+
 func c16RunProgramme(spec C16Spec, g int, prog []c16Tab, names, formats []string) (out, labels []string) {
 	if c16WantsDecorations(spec) {
 		out, labels = c16Prologue(names)
+		if spec.Storm > 0 {
+			o, l := c16Storm(spec, g, names)
+			out, labels = append(out, o...), append(labels, l...)
+		}
 	}
 	for k, ct := range prog {
 		t := tabular.New()
@@ -966,7 +1033,7 @@ func c16RunCase(spec C16Spec) CaseOut {
 	tags := append([]string{"kind=run", fmt.Sprintf("goroutines=%d", spec.G), fmt.Sprintf("gomaxprocs=%d", spec.Procs),
 		fmt.Sprintf("readers=%d", spec.Readers), fmt.Sprintf("tables-per-goroutine=%d", spec.Tables), "formats=" + fclass,
 		fmt.Sprintf("every-table-in-every-format=%v", spec.Full), fmt.Sprintf("cold-start=%v", spec.ColdFirst), fmt.Sprintf("reference-in-own-process=%v", spec.Pristine),
-		fmt.Sprintf("tall-tables=%d", spec.Tall), fmt.Sprintf("race=%v", obs.Race), fmt.Sprintf("race-detector=%v", obs.RaceDetect)}, outcomeTags...)
+		fmt.Sprintf("tall-tables=%d", spec.Tall), fmt.Sprintf("style-storm=%v", spec.Storm > 0), fmt.Sprintf("race=%v", obs.Race), fmt.Sprintf("race-detector=%v", obs.RaceDetect)}, outcomeTags...)
 	if obs.Result != nil && obs.Result.ErrTables > 0 {
 		tags = append(tags, "tables-recording-errors")
 	}
@@ -975,7 +1042,7 @@ func c16RunCase(spec C16Spec) CaseOut {
 		Desc:       obs,
 		Size:       spec.G*spec.Tables*spec.Iters*(1+spec.MaxRows*spec.MaxCells) + spec.Readers,
 		Tags:       tags,
-		Key:        fmt.Sprintf("%d/%d/%d/%d/%d/%d/%s/%v/%v/%s", spec.Seed, spec.G, spec.Procs, spec.Tables, spec.Iters, spec.Readers, fclass, spec.ColdFirst, spec.Pristine, obs.Sig) + fmt.Sprintf("/tall%d", spec.Tall),
+		Key:        fmt.Sprintf("%d/%d/%d/%d/%d/%d/%s/%v/%v/%s", spec.Seed, spec.G, spec.Procs, spec.Tables, spec.Iters, spec.Readers, fclass, spec.ColdFirst, spec.Pristine, obs.Sig) + fmt.Sprintf("/tall%d/storm%d", spec.Tall, spec.Storm),
 		Nontrivial: spec.G >= 2 && renders > 0,
 	}
 }
@@ -1061,6 +1128,14 @@ func c16Shrink(raw json.RawMessage) []json.RawMessage {
 		c.Readers = 0
 		add(c)
 	}
+	if s.Storm > 0 {
+		c := s
+		c.Storm = 0
+		add(c)
+		c = s
+		c.Tables, c.Iters, c.MaxRows, c.MaxCells, c.Tall = 1, 1, 1, 1, 0 // the storm and little else
+		add(c)
+	}
 	if s.Tall > 0 {
 		c := s
 		c.Tall = 0
@@ -1103,7 +1178,7 @@ func init() {
 		Rule: "one case is the shared-state inventory of the repository's source (every package-level var of every non-test package and every post-init write, address-of, append destination or pointer-receiver call on one; accesses to the fields of mutex-carrying variables - registry.table - with their lock status: lexically between Lock and Unlock of the variable's own mutex, exclusive lock for mutations, or in an unexported helper all of whose call sites are so locked), judged by shared_ok; " +
 			"assumed of the standard library: sync and sync/atomic types synchronise, and the methods of *strings.Replacer and of *regexp.Regexp (except Longest) are safe for concurrent use as documented, so calls of them on package-level variables are not counted as mutation; " +
 			"every other case is one child process under the race detector: 8-64 goroutines that each build their own tables (1-6 columns, 0-6 rows, separators, multi-line / markup / non-ASCII / non-string items, alignment and skipable column properties, built by AddRowItems, NewRow+AddRow, NewRowSizedFor) and render each in csv, json, markdown, html (plain; Id/Class/Caption/TemplateName/row-class generator, rendered twice through the wrapper's cached template), texttable (default decoration, an unknown name, RenderTo) plus the registered decorations by name / by value and auto.Render for the listed styles - all of them for every table in the cases tagged every-table-in-every-format=true, otherwise a third / a quarter per table rotating with (goroutine, table) so that every run still renders every decoration and style concurrently - " +
-			"while 1-8 reader goroutines call RegisteredDecorationNames / Named / auto.ListStyles. Every goroutine's first actions after the start barrier are the same lookups of the six built-in decoration names and renders of a tiny table in each. Cells draw on a small pool of short texts shared by all goroutines, as plain strings and as single-line items declaring a wider display width; some cells hold +Inf/-Inf (encoding/json refuses them part-way down the table); a quarter of the tables record errors (a cell added to a separator row; a render-time callback failing three times) and what t.Errors() and every row's Errors() hold - count, order, and for the harness's own errors their per-table tag - is compared after the first render and at the end; a third of the tables are, between renders, rendered into destinations that fail after 0-51 bytes; the shared text pool holds texts with an emoji presentation selector (U+FE0F) and texts with East-Asian-ambiguous characters; in a fifth of the cases (GOMAXPROCS >= 2) one or two goroutines also own a 1100-row table rendered as texttable. " +
+			"while 1-8 reader goroutines call RegisteredDecorationNames / Named / auto.ListStyles. Every goroutine's first actions after the start barrier are the same lookups of the six built-in decoration names and renders of a tiny table in each. Cells draw on a small pool of short texts shared by all goroutines, as plain strings and as single-line items declaring a wider display width; some cells hold +Inf/-Inf (encoding/json refuses them part-way down the table); a quarter of the tables record errors (a cell added to a separator row; a render-time callback failing three times) and what t.Errors() and every row's Errors() hold - count, order, and for the harness's own errors their per-table tag - is compared after the first render and at the end; a third of the tables are, between renders, rendered into destinations that fail after 0-51 bytes; the shared text pool holds texts with an emoji presentation selector (U+FE0F) and texts with East-Asian-ambiguous characters; in a fifth of the cases (GOMAXPROCS >= 2) one or two goroutines also own a 1100-row table rendered as texttable; in half of the cases every goroutine, right after its first lookups, goes 5-16 times round a palette of 39 distinct style spellings (the five formats in several capitalisations and with ignored trailing sections, every built-in decoration bare and as texttable.<name>/TextTable.<name>, two names of nothing) through auto.Wrap on tables of its own, each goroutine starting at its own offset, and per spelling the wrapper types (and, every eighth turn, the rendered text) it got are compared with what that exact spelling gives alone. " +
 			"Reference ('rendered alone'): the same programmes run alone in the same process, twice (before the goroutines in warm cases; in cold cases - half - after them, and then the process does not touch the library or the registry before the goroutines do: built-in names are constants, readers check their own first answers against the registry afterwards); in a third of the cases (8-12 goroutines) each goroutine's reference is instead computed in a pristine child process of its own and the same-process solo run is the correspondence side. Goroutine count, GOMAXPROCS (1..16), tables, iterations vary by seed. " +
 			"A case is non-trivial when at least two goroutines rendered concurrently; distinct = distinct (seed, goroutines, GOMAXPROCS, tables, iterations, readers, formats, outcome)",
 		Exhaustive: "",
@@ -1144,6 +1219,16 @@ func init() {
 				}
 				s.ColdFirst = i%2 == 1
 				s.Pristine = pristine
+				if i%2 == 0 {
+					// a storm of distinct style spellings, sized to the goroutine count
+					s.Storm = 320 / s.G
+					if s.Storm > 16 {
+						s.Storm = 16
+					}
+					if s.Storm < 5 {
+						s.Storm = 5
+					}
+				}
 				if i%5 == 2 {
 					// one or two goroutines also own a tall table
 					s.Tall = 1 + i%2
